@@ -78,6 +78,31 @@ def build_harness():
         lock.close()
 
 
+HARNESS_DEBUG = os.path.join(HARNESS_DIR, "target", "debug", os.path.basename(HARNESS))
+
+
+def build_harness_debug():
+    """The same harness in the dev profile (unoptimized: stack frames several times larger) - what a user of the
+    library runs under `cargo test` / `cargo run`.  Used by C03 for the families whose recursion depth grows with n."""
+    os.makedirs(WORK, exist_ok=True)
+    lock = open(os.path.join(WORK, ".build.lock"), "w")
+    fcntl.flock(lock, fcntl.LOCK_EX)
+    try:
+        env = dict(os.environ)
+        env["CARGO_NET_OFFLINE"] = "true"
+        t0 = time.time()
+        p = subprocess.run(["cargo", "build", "--offline", "--quiet"], cwd=HARNESS_DIR, env=env,
+                           stdout=subprocess.PIPE, stderr=subprocess.STDOUT, text=True)
+        if p.returncode != 0:
+            log(p.stdout[-4000:])
+            raise ToolError("harness build (dev profile) failed")
+        log("harness (dev profile) built in %.1fs" % (time.time() - t0))
+    finally:
+        fcntl.flock(lock, fcntl.LOCK_UN)
+        lock.close()
+    return HARNESS_DEBUG
+
+
 def run_harness(args, timeout=3600, stdin=None):
     p = subprocess.run([HARNESS] + args, stdout=subprocess.PIPE, stderr=subprocess.PIPE,
                        text=True, timeout=timeout, input=stdin)
